@@ -110,3 +110,14 @@ Theorem C10_blocking_recv_reported : forall o,
   (reported_recv o = Some 1 <-> o = SOut ODisconnected) /\ reported_recv o <> Some 0.
 Proof. exact reported_recv_faithful. Qed.
 Print Assumptions C10_blocking_recv_reported.
+
+(* ---- the in-process transport (Timed.inproc_recv; crossbeam's semantics trusted): same outcome table as the OS transport, and
+   'disconnected' for a drained channel without senders whatever the timeout - zero and sub-millisecond durations included ---- *)
+Theorem C10_inproc_agrees : forall m q d,
+  (forall us, m = MTimeout us -> poll_arg us <> -1) ->
+  inproc_recv m q d = fst (fst (recv_first m q d false)).
+Proof. exact transports_agree. Qed.
+Print Assumptions C10_inproc_agrees.
+Theorem C10_inproc_dead_is_disconnected : forall m d, inproc_recv m QDead d = ODisconnected.
+Proof. exact inproc_dead_is_disconnected. Qed.
+Print Assumptions C10_inproc_dead_is_disconnected.
